@@ -37,7 +37,7 @@ def make_case(rng, cid, n, kind, quick):
     return c
 
 
-def model_line(c, r):
+def model_line(c, r, dyn=False):
     n = c["n"]
     permc = r["perm_c"]
     inv = [0] * n
@@ -45,8 +45,8 @@ def model_line(c, r):
         inv[permc[j]] = j
     cb = [c["colptr"][inv[jj]] for jj in range(n)]
     ce = [c["colptr"][inv[jj] + 1] for jj in range(n)]
-    return "PRESET %d %d %d | %s | %s | %s | %s | %s | %s" % (
-        n, c["ienv"][2], c["ienv"][1], " ".join(map(str, cb)), " ".join(map(str, ce)), " ".join(map(str, c["rowind"])),
+    return "%s %d %d %d | %s | %s | %s | %s | %s | %s" % (
+        "PRESETDYN" if dyn else "PRESET", n, c["ienv"][2], c["ienv"][1], " ".join(map(str, cb)), " ".join(map(str, ce)), " ".join(map(str, c["rowind"])),
         " ".join(map(str, r["etree"])), " ".join(map(str, r["colcnt_h"])), " ".join(map(str, r["part_super_h"])))
 
 
@@ -61,7 +61,7 @@ def run(ctx):
     N = 80 if ctx.quick() else 1000
     cases = [make_case(rng, k + 1, rng.randint(2, 40 if ctx.quick() else 120), kinds[k % len(kinds)], ctx.quick()) for k in range(N)]
     exe = drv.build(ctx, "d", "hooks")
-    nmap = nslot = nbump = 0
+    nmap = nslot = nbump = ndyn = 0
     for mode in ("static", "dynamic"):
         env = {"SuperLU_DYNAMIC_SNODE_STORE": "1"} if mode == "dynamic" else None
         sub = cases if mode == "static" else cases[::3]
@@ -92,8 +92,8 @@ def run(ctx):
                     bad = "LUSUP allocation ends at %d beyond nzlumax %d" % (r["max_lusup_end"], r["nzlumax"])
                 else:
                     nslot += 1
-                    if mode == "static" and "map_in_sup" in r and r["map_in_sup"] and "etree" in r:
-                        lines.append(model_line(c, r)); idx.append(k)
+                    if "map_in_sup" in r and r["map_in_sup"] and "etree" in r and c["ienv"][1] <= c["ienv"][2]:
+                        lines.append(model_line(c, r, dyn=(mode == "dynamic"))); idx.append(k)
             if bad:
                 key = {"kind": "memory", "what": bad[:30]}
                 if mode == "dynamic" and c["nprocs"] > 1 and "outgrew its slot" in bad:
@@ -111,6 +111,15 @@ def run(ctx):
                 mm = [int(x) for x in ln[2:].split("|")[0].split()]
                 ok = ln.strip().endswith("OK 1")
                 nmap += 1
+                if mode == "dynamic":
+                    # dynamic scheme: only relaxed supernodes are pre-set; image and Glu->nextlu must equal the model's
+                    ndyn += 1
+                    nlu = int(ln.split("NEXTLU")[1])
+                    if mm != r["map_in_sup"] or nlu != r.get("nextlu0"):
+                        ctx.violation("C05: dynamic-scheme storage image differs from the ?PresetMap model: map %s vs %s, nextlu %s vs %s" % (
+                                      r["map_in_sup"][:16], mm[:16], r.get("nextlu0"), nlu), {"mode": mode, "case": c, "model": mm, "impl": r["map_in_sup"]},
+                                      key={"kind": "presetmap_dynamic"})
+                    continue
                 if mm != r["map_in_sup"]:
                     # which one is right?  the verified checker decides on the implementation's image
                     ctx.broken.append("correspondence PresetMap: model %s vs implementation %s (n=%d)" % (mm[:12], r["map_in_sup"][:12], c["n"]))
@@ -120,6 +129,7 @@ def run(ctx):
                     ctx.violation("C05: storage image rejected by the verified slot checker: %s" % mm[:20], {"case": c, "map": mm},
                                   key={"kind": "slots"})
     ctx.cov["correspondence"]["presetmap_images_compared"] = nmap
+    ctx.cov["correspondence"]["presetmap_dynamic_images_compared"] = ndyn
     ctx.cov["correspondence"]["bump_allocator_logs_equal_to_model"] = nbump
     ctx.cov["correspondence"]["runs_with_every_LUSUP_allocation_inside_its_slot"] = nslot
     # ---- ASan/UBSan sample and the abort path
